@@ -24,7 +24,7 @@ type c16Case struct {
 func init() {
 	engine.Register(&engine.Check{
 		ID: "C16", Level: "model_checking",
-		Rule: "for every geometry of the universe U (7 cloneable types x 6 layouts, built by SetCoords, by New*Flat with spare capacity, and with empty-but-non-nil slices), Coord and Bounds: c=g.Clone(); equality of type/layout/SRID/structure/bits; then every mutation history of depth <=2 (quick) / <=3 (thorough) over {overwrite all ordinates incl. spare capacity, overwrite all end offsets incl. spare capacity, Push, Reverse, SetCoords, SetSRID, TransformInPlace} x {original, clone}; after every transition the full state (incl. capacity contents) of the side not operated on must be unchanged. state = (geometry, construction, history)",
+		Rule: "for every geometry of the universe U (7 cloneable types x 6 layouts, built by SetCoords, by New*Flat with spare capacity, and with empty-but-non-nil slices) plus larger structures (6..33 polygons / 12..66 parts / 18..99 points), Coord and Bounds: c=g.Clone(); equality of type/layout/SRID/structure/bits; then every mutation history of depth <=2 (quick) / <=3 (thorough) over {overwrite all ordinates incl. spare capacity, overwrite all end offsets incl. spare capacity, Push, Reverse, SetCoords, SetSRID, TransformInPlace} x {original, clone}; after every transition the full state (incl. capacity contents) of the side not operated on must be unchanged. state = (geometry, construction, history)",
 		Run:    c16Run,
 		Replay: func(c *engine.Ctx, kind string, raw json.RawMessage) { c16Exec(c, decodeCase[c16Case](raw)) },
 		Assumptions: []string{
@@ -446,6 +446,26 @@ func c16Run(c *engine.Ctx) {
 	var bases []*ref.G
 	for _, l := range ref.LayoutsAll {
 		ref.ForEachBase(l, 2, func(g *ref.G) { bases = append(bases, g) })
+	}
+	// larger structures (allocation strategies that only change beyond a few rows/parts)
+	for _, l := range []geom.Layout{geom.XY, geom.XYZM} {
+		for _, np := range []int{6, 9, 17, 33} {
+			var shape [][]int
+			for i := 0; i < np; i++ {
+				shape = append(shape, [][]int{{2, 1, 2}, {1}, {}, {2, 2}}[i%4])
+			}
+			bases = append(bases, ref.NewMultiPolygon(l, shape, ref.Counter()))
+			sizes := make([]int, np*2)
+			for i := range sizes {
+				sizes[i] = (i*3 + 1) % 4
+			}
+			bases = append(bases, ref.NewParts(ref.Polygon, l, sizes, ref.Counter()), ref.NewParts(ref.MultiLineString, l, sizes, ref.Counter()))
+			pat := make([]int, np*3)
+			for i := range pat {
+				pat[i] = (i + 1) % 3
+			}
+			bases = append(bases, ref.NewMultiPoint(l, pat, ref.Counter()), ref.NewLine(ref.LineString, l, np*5, ref.Counter()))
+		}
 	}
 	nops := 2 * len(c16Ops())
 	idx := make([]int, nops)
